@@ -22,7 +22,7 @@ BATCH = 4000
 RULE = ("10 % of the modules in a case use the real updater behind a value-slice or wrongly typed converter (ds.mode), Base add/remove handler ops; 12 % of the cases carry a segment on a scripted handler (ds.custom: converter nil/ok/err/panic x updater ok/err/panic, panic values error/string/nil-deref); deliveries go through a datasource.Base from one reused buffer (ds.deliver) or directly to the handler (ds.handle), mixed; (plus real-file event sequences: 5 corpus + 4 random in quick, 60 random in thorough) payload sequences (3-12 deliveries on one or two of the five modules, fresh handlers and cleared managers per case); payloads are "
         "encoded from rule values by an independent tag-driven encoder (shuffled/omitted/null/duplicate/unknown keys, boundary numbers, out-of-range "
         "and wrongly typed values), plus null elements, empty/null/[]/whitespace, truncations, garbage, exact redeliveries, A-B-A, valid-after-invalid, "
-        "same rule under another id / threshold within 1e-8 / signed zero, same-length payloads differing in one digit; non-trivial = some delivery put rules in force AND the case contains a "
+        "same rule under another id / threshold within 1e-8 / signed zero / one specific item renamed, zeroed, added, removed or re-kinded; non-round statistic intervals; same-length payloads differing in one digit; non-trivial = some delivery put rules in force AND the case contains a "
         "rejection (err) or a redelivery of the payload just applied; distinct by (modules, per-delivery payload class and outcome)")
 
 MODS = ["flow", "system", "cb", "isolation", "hotspot"]
@@ -61,6 +61,10 @@ NEG_FLOATS = ["-1", "-0.5", "-0.0", "-1e-3"]
 BAD_FLOATS = ["1e400", "-1e999"]
 
 
+# statistic intervals that are not round multiples of the global bucket length (the list the C13 builder uses, plus a few more)
+ODD_INTERVALS = [1, 7, 250, 499, 501, 700, 997, 1250, 1501, 1600, 1700, 1750, 3001, 3100, 3200, 9973, 9999, 10001, 12345]
+
+
 def jstr(s):
     return '"' + s.replace("\\", "\\\\").replace('"', '\\"').replace("\n", "\\n").replace("\t", "\\t") + '"'
 
@@ -93,7 +97,7 @@ def specific_item(rng):
         3: ["1.5", "1.000004", "1.000005", "1.000015", "2.5", "-0.000001", "1e2", "Inf", "-Inf", "NaN", "abc", "", "0", "-0", "0.1", "1e400", "123.456789", "+2.25"],
     }
     vs = rng.choice(pools.get(k, ["1", "a", ""]))
-    return {"valKind": k, "valStr": vs, "threshold": rng.choice([0, 1, 5, 100, -1])}
+    return {"valKind": k, "valStr": vs, "threshold": rng.choice([0, 0, 1, 5, 100, -1])}
 
 
 def rule_values(rng, mod):
@@ -108,7 +112,7 @@ def rule_values(rng, mod):
              "relationStrategy": str(gen_int(rng, "int32", [0, 0, 0, 1, 2])), "refResource": jstr(rng.choice(["", "ref", "r2"])),
              "maxQueueingTimeMs": str(gen_int(rng, "uint32", [0, 10, 500])), "warmUpPeriodSec": str(gen_int(rng, "uint32", [0, 1, 10, 10])),
              "warmUpColdFactor": str(gen_int(rng, "uint32", [0, 0, 1, 2, 3, 5])),
-             "statIntervalInMs": str(gen_int(rng, "uint32", [0, 0, 1000, 500, 100, 750, 1500, 2000, 10000, 20000])),
+             "statIntervalInMs": str(gen_int(rng, "uint32", [0, 0, 1000, 500, 100, 750, 1500, 2000, 10000, 20000] + ODD_INTERVALS)),
              "lowMemUsageThreshold": str(gen_int(rng, "int64", [0, 100, 1000])), "highMemUsageThreshold": str(gen_int(rng, "int64", [0, 10, 100, 2000])),
              "memLowWaterMarkBytes": str(gen_int(rng, "int64", [0, 1024, 4096])), "memHighWaterMarkBytes": str(gen_int(rng, "int64", [0, 2048, 8192, 1048576]))}
         if v["tokenCalculateStrategy"] == "2":   # validity above 1 MiB depends on the machine's memory size: not generated
@@ -122,7 +126,7 @@ def rule_values(rng, mod):
     elif mod == "cb":
         v = {"id": jstr(rid), "resource": jstr(res), "strategy": str(gen_int(rng, "uint32", [0, 1, 2, 2, 3])),
              "retryTimeoutMs": str(rng.choice([0, 1, 3000, 3000, 4294967295, 4294967296])), "minRequestAmount": str(gen_int(rng, "uint64", [0, 5, 10])),
-             "statIntervalMs": str(rng.choice([0, 1000, 1000, 5000, 10000, 999, -1])),
+             "statIntervalMs": str(rng.choice([0, 1000, 1000, 5000, 10000, 999, -1] + ODD_INTERVALS)),
              "statSlidingWindowBucketCount": str(rng.choice([0, 1, 2, 10, 3, 7])), "maxAllowedRtMs": str(gen_int(rng, "uint64", [0, 20, 500])),
              "threshold": gen_float(rng), "probeNum": str(gen_int(rng, "uint64", [0, 1, 5]))}
     elif mod == "isolation":
@@ -137,8 +141,10 @@ def rule_values(rng, mod):
              "paramsMaxCapacity": str(rng.choice([0, 0, 10, 100, -5])),
              "specificItems": "[" + ",".join(encode_obj(rng, {k: (jstr(x) if isinstance(x, str) else str(x)) for k, x in it.items()}, plain=rng.random() < 0.6)
                                              for it in items) + "]"}
+        v["_items"] = items                                      # kept for one-step variants (not encoded)
         if rng.random() < 0.06:
             v["specificItems"] = rng.choice(["null", "[null]", "[{}]"])
+            v["_items"] = []
         if rng.random() < 0.05:
             v["paramKey"] = jstr(rng.choice(["k", "user"]))          # known finding hotspot-paramkey-dropped
     return v
@@ -149,7 +155,7 @@ UNKNOWN = ['"extra":{"a":[1,null,"x"],"b":{}}', '"zzz":null', '"comment":"hi"', 
 
 def encode_obj(rng, v, plain=False):
     """independent encoder: a JSON object text from json-name -> literal text"""
-    items = list(v.items())
+    items = [kv for kv in v.items() if not kv[0].startswith("_")]
     if not plain:
         if rng.random() < 0.5:
             rng.shuffle(items)
@@ -183,8 +189,42 @@ def hexp(s):
     return s.encode().hex() if s else "-"
 
 
+def encode_items(items):
+    return "[" + ",".join("{" + ",".join(f'"{k}":{jstr(x) if isinstance(x, str) else x}' for k, x in it.items()) + "}" for it in items) + "]"
+
+
+RENAME = {"7": "8", "8": "7", "1": "2", "+1": "3", "01": "4", "-3": "-4", "a": "b", "T": "U", "hello world": "hello", "true": "false", "1.5": "2.5", "2.5": "1.5",
+          "1.000004": "3.25", "1e2": "1e3", "0": "9", "0.1": "0.2"}
+
+
+def specific_variant(rng, v):
+    """the same hotspot rule with ONE small change of its specific items: a key renamed, a value changed to/from 0, an item with value 0 added or
+    removed, the kind of an item changed"""
+    w = dict(v)
+    items = [dict(it) for it in v.get("_items", [])]
+    r = rng.random()
+    if not items or r < 0.2:
+        items.insert(rng.randrange(len(items) + 1), {"valKind": rng.choice([0, 1]), "valStr": rng.choice(["41", "zz", "5"]), "threshold": 0})
+    else:
+        i = rng.randrange(len(items))
+        it = items[i]
+        if r < 0.5:
+            it["valStr"] = RENAME.get(it["valStr"], "77" if it["valStr"] != "77" else "78")
+        elif r < 0.7:
+            it["threshold"] = 0 if it["threshold"] != 0 else rng.choice([1, 5])
+        elif r < 0.85:
+            del items[i]
+        else:
+            it["valKind"] = {0: 1, 1: 0, 2: 1, 3: 1}.get(it["valKind"], 1)
+    w["_items"] = items
+    w["specificItems"] = encode_items(items)
+    return w
+
+
 def variant(rng, mod, v):
     """the same rule as the module judges it, under another id / with an irrelevant difference (stale-equal-rule region)"""
+    if mod == "hotspot" and rng.random() < 0.6:
+        return specific_variant(rng, v)
     w = dict(v)
     r = rng.random()
     if r < 0.5 or mod in ("system", "isolation", "cb"):
@@ -244,7 +284,7 @@ def gen_case(rng, cid):
             p, cl = hist[m][-1], "redeliver"
         elif r < 0.70:
             p, cl = rng.choice(hist[m]), "older"
-        elif r < 0.77 and lastvals[m]:
+        elif (r < 0.77 or (m == "hotspot" and r < 0.85)) and lastvals[m]:
             vals = [variant(rng, m, v) if rng.random() < 0.7 else v for v in lastvals[m]]
             lastvals[m] = vals
             p, cl = encode_list(rng, [encode_obj(rng, v, plain=True) for v in vals]), "variant"
